@@ -22,7 +22,7 @@ ASSUMPTIONS = ['io.TextIOBase.read(n) may return fewer than n characters; only a
                'a segment with no non-empty element is compared in normal form only (format() writes "SE*~" for "SE~")',
                'path sources are restricted to ASCII text (the reader opens files as ASCII by design)']
 REQUIRED_COUNTERS = ['texts', 'reads', 'segments-compared', 'straddling-segments', 'sources:path', 'sources:file', 'sources:short-reads', 'sources:resumed', 'roundtrips',
-                     'expected:leading-blank', 'expected:trailing-sep', 'texts:long-segment', 'texts:empty-segment', 'texts:text-after-last-terminator', 'texts:short-later-isa']
+                     'expected:leading-blank', 'expected:trailing-sep', 'texts:long-segment', 'texts:empty-segment', 'texts:text-after-last-terminator', 'texts:short-later-isa', 'texts:blank-before-later-isa']
 MIN_CASES = {'quick': 1300, 'thorough': 30000}
 
 CHUNKS = [1, 7, 105, 106, 107, 4096, 8191, 8192, 8193]
@@ -92,6 +92,10 @@ def soup(rng, quick):
             isa2 = ele_t.join(['ISA', '00', '', '00', '', 'ZZ', 'S', 'ZZ', 'R', '040608', '1333', 'U', '00401', '000000002', '0', 'P', sub_t])
             fill_n = 105 - len(isa2) - 1 - len(eol) - len('K3' + ele_t)
             if fill_n > 0:
+                if rng.random() < 0.5:
+                    # an indented later header: the blanks go, the header stays a header (its component-separator field is data, not a composite)
+                    out.append(' ' * rng.randint(1, 3))
+                    feats.add('blank-before-later-isa')
                 out.append(isa2)
                 out.append(seg_t)
                 out.append(eol)
